@@ -310,7 +310,20 @@ GenUpPostNew(op) ==
      /\ resp' = [Ok(202) EXCEPT !.sess = h, !.off = 0]
      /\ UNCHANGED <<env, base, blob, man, tag, young>> /\ ClockStep
 PlainNew(op) == op.op = "UpPost" /\ op.dig = "" /\ op.mount = "" /\ op.alg = "" /\ CanPush /\ op.repo \in Repos
-GenDo(op) == IF op.op = "PushBlob" THEN PushBlobEffect(op) ELSE IF PlainNew(op) THEN GenUpPostNew(op) ELSE Do(op)
+\* the generator's idea of a restart of a writable directory store: Close collects every repository (the validator binds
+\* that collection to the observation; without it the guards would be evaluated on manifests that are already gone)
+GenRestartDir ==
+  /\ sess' = [h \in DOMAIN sess |-> [sess[h] EXCEPT !.open = FALSE]]
+  /\ blob' = [r \in Repos |-> blob[r] \cap MayBlobs(r)]
+  /\ man' = [r \in Repos |-> Restrict(man[r], GCKeepMan(r))]
+  /\ tag' = [r \in Repos |-> Restrict(tag[r], {t \in DOMAIN tag[r] : tag[r][t] \in GCKeepMan(r)})]
+  /\ young' = [r \in Repos |-> young[r] \cap MayBlobs(r)]
+  /\ resp' = Ok(0)
+  /\ UNCHANGED <<nsess, base, env>> /\ ClockStep
+GenDo(op) == IF op.op = "PushBlob" THEN PushBlobEffect(op)
+             ELSE IF PlainNew(op) THEN GenUpPostNew(op)
+             ELSE IF op.op = "Restart" /\ env.store = "dir" /\ ~Cfg.readOnly /\ ~GCNoop THEN GenRestartDir
+             ELSE Do(op)
 
 MCInit ==
   /\ env = [cat |-> CatFile, cfg |-> CatFile.cfg, store |-> CatFile.cfg.store, trace |-> "mc"]
